@@ -49,6 +49,8 @@ def gen_specs(tier, seed):
         b = [s for s in specs if sum(nwires(SHAPES[c]) for c in s) == 7][::24]
         c = [s for s in specs if sum(nwires(SHAPES[c]) for c in s) == 8][::400]
         specs = a + b + c
+    # programs assembled by hand may keep their mode sequences as tuples (marker -1): same wires, same graph
+    specs += [s + (-1,) for s in [x for x in specs if len(x) >= 2][::(7 if tier == "quick" else 3)]]
     return specs
 
 
@@ -60,14 +62,15 @@ def build(spec, wire):
     prog = BlackbirdProgram(name="c16")
     k = 0
     per_op = []
-    for idx, c in enumerate(spec):
+    as_tuple = -1 in spec
+    for idx, c in enumerate([x for x in spec if x >= 0]):
         m, tr = SHAPES[c]
         modes = []
         for _ in range(m):
             modes.append(wire(k))
             k += 1
         wires = list(modes)
-        op = {"op": "G%d" % idx, "modes": modes}
+        op = {"op": "G%d" % idx, "modes": tuple(modes) if as_tuple else modes}
         if tr is not None:
             op["args"] = []
             op["kwargs"] = {}
@@ -138,11 +141,12 @@ def run_spec(spec):
     from blackbird.utils import to_DiGraph
     import networkx as nx
     out = {"spec": spec, "result": "holds", "paths": 0, "stats": None, "why": None, "cex": None, "funcs": [], "reach": 0}
-    nw = sum(nwires(SHAPES[c]) for c in spec)
+    shape = [c for c in spec if c >= 0]
+    nw = sum(nwires(SHAPES[c]) for c in shape)
     ws = [z3.Int("w%d" % i) for i in range(nw)]
     E = engine.Engine(max_paths=20000)
     E.base = [w >= 0 for w in ws]
-    n = len(spec)
+    n = len(shape)
     holder = {}
 
     def run():
@@ -158,7 +162,7 @@ def run_spec(spec):
             out.update(result="inconclusive", why=str(e), stats=E.stats)
             return out
     out["paths"] = len(paths)
-    out["text"] = "program shape %r (%d symbolic wires)" % ([SHAPES[c] for c in spec], nw)
+    out["text"] = "program shape %r (%d symbolic wires)%s" % ([SHAPES[c] for c in shape], nw, ", modes kept as tuples" if -1 in spec else "")
     _, per_op_terms = build(spec, lambda i: ws[i])
     R = ref_reach(per_op_terms, lambda a, b: a == b, z3.And, lambda xs: z3.Or(xs) if xs else z3.BoolVal(False), z3.BoolVal(False))
     for pth in paths:
@@ -214,7 +218,7 @@ def concrete_check(spec, vals):
     from blackbird.utils import to_DiGraph
     import networkx as nx
     prog, per_op = build(spec, lambda i: int(vals[i]))
-    n = len(spec)
+    n = len([c for c in spec if c >= 0])
     desc = "operations %r" % [(o["op"], o["modes"], [t.regrefs for t in list(o.get("args", [])) + list(o.get("kwargs", {}).values()) if hasattr(t, "regrefs")]) for o in prog._operations]
     try:
         G = to_DiGraph(prog)
